@@ -63,6 +63,82 @@ def variants(res, rnd):
     return out
 
 
+ACASES = []
+AHEADER = ("From Coq Require Import Reals.\nFrom Interval Require Import Tactic.\nFrom TFV Require Import Rot.DHom Amp.CascadeTie.\nOpen Scope R_scope.\n")
+
+
+def _su2(a, b, g):
+    uz = lambda t: np.array([[np.exp(-0.5j * t), 0], [0, np.exp(0.5j * t)]])  # noqa: E731
+    c, s_ = math.cos(b / 2), math.sin(b / 2)
+    return uz(a) @ np.array([[c, -s_], [s_, c]]) @ uz(g)
+
+
+def _euler_of(U):
+    """Euler angles (a, b, g) with U = +Rz(a)Ry(b)Rz(g) exactly on the right SU(2) sheet (g may leave (-pi, pi])"""
+    b = 2 * math.atan2(abs(U[1, 0]), abs(U[0, 0]))
+    if abs(U[1, 0]) > 1e-9 and abs(U[0, 0]) > 1e-9:
+        apg, amg = 2 * np.angle(U[1, 1]), 2 * np.angle(U[1, 0])
+    elif abs(U[0, 0]) > 1e-9:
+        apg, amg = 2 * np.angle(U[1, 1]), 0.0
+    else:
+        apg, amg = 0.0, 2 * np.angle(U[1, 0])
+    a, g = (apg + amg) / 2, (apg - amg) / 2
+    if abs(_su2(a, b, g) + U).max() < abs(_su2(a, b, g) - U).max():
+        g += 2 * math.pi
+    return float(a), float(b), float(g)
+
+
+def align_elements(data, nev, spin_finals):
+    """alignment element of every (chain, spinning final particle): Euler angles stored by cal_angle in aligned_angle
+    (identity for the reference)"""
+    out = {}
+    for ch in data["decay"]:
+        decs = [k for k in data["decay"][ch] if hasattr(k, "core")]
+        key_ch = tuple(sorted(str(d) for d in decs))
+        for dec in decs:
+            for o in dec.outs:
+                if str(o) not in spin_finals:
+                    continue
+                x = data["decay"][ch][dec][o]
+                if "aligned_angle" in x:
+                    aa = x["aligned_angle"]
+                    ang = [[float(np.array(aa[k])[e]) for k in ("alpha", "beta", "gamma")] for e in range(nev)]
+                else:
+                    ang = [[0.0, 0.0, 0.0] for _ in range(nev)]
+                out[(key_ch, str(o))] = ang
+    return out
+
+
+def alignment_cases(ctx, tag, vname, frame, base_el, el, nev, meta0):
+    """hypothesis of C02_reference_change_is_common_matrix on the code's aligned angles: W_base(chain) * G = W_variant(chain)
+    with ONE G for all chains (G is read off the first chain, the other chains are the test)"""
+    finals = sorted(set(k[1] for k in el))
+    for f in finals:
+        keys = sorted(k for k in el if k[1] == f and k in base_el)
+        if len(keys) < 2:
+            continue
+        for e in range(nev):
+            k0 = keys[0]
+            G = np.linalg.inv(_su2(*base_el[k0][e])) @ _su2(*el[k0][e])
+            ga, gb, gg = _euler_of(G)
+            for k in keys[1:]:
+                ax, bx, gx = base_el[k][e]
+                ay, by_, gy = el[k][e]
+                M = _su2(ax, bx, gx) @ _su2(ga, gb, gg)
+                N = _su2(ay, by_, gy)
+                if abs(M + N).max() < abs(M - N).max():
+                    gy += 2 * math.pi
+                    N = -N
+                err = float(abs(M - N).max())
+                cid = "A_%s_%s_%s_%s_%d_e%d" % (tag, vname.replace("+", "_"), frame, f, keys.index(k), e)
+                ACASES.append((cid, "align_ok %s %s %s %s %s %s %s %s %s %s" % tuple(Rq(v) for v in (1e-10, ax, bx, gx, ga, gb, gg, ay, by_, gy)), "align_tac",
+                               dict(meta0, layer="alignment", final=f, chain=list(k[0]), event=e, base_aligned=[ax, bx, gx], variant_aligned=[ay, by_, gy],
+                                    common_G_euler=[ga, gb, gg], su2_mismatch=err)))
+                ctx.count("alignment:common_matrix")
+                ctx.evaluations += 1
+                ctx.distinct.add((tag, vname, frame, "alignment", f, k[0], e))
+
+
 def run_base(ctx, rnd, tag, res, top, fin, weak, M0, mf, cases, nev, dopts=None):
     from tf_pwa.config_loader import ConfigLoader
     p4 = ampkit.gen_events(M0, mf, nev, rnd.randrange(10 ** 6))
@@ -90,10 +166,17 @@ def run_base(ctx, rnd, tag, res, top, fin, weak, M0, mf, cases, nev, dopts=None)
             if base is None or (frame, "x") not in base:
                 pass
             key = frame
+            spin_finals = [k for k, v in fin.items() if v[0] != 0]
+            el = align_elements(data, nev, spin_finals)
             if vname == "perm0_base":
                 base = base or {}
                 base[key] = dens
                 base[key + "_cfg"] = cfg
+                base[key + "_el"] = el
+            elif vname in (("perm1_base", "perm0_align_center_mass") if ctx.tier == "quick" else
+                           ("perm1_base", "perm2_base", "perm0_align_center_mass", "perm1_align_center_mass")) and not (
+                    frame == "moving" and opts.get("align_ref") == "center_mass"):
+                alignment_cases(ctx, tag, vname, frame, base[key + "_el"], el, 1 if ctx.tier == "quick" else nev, meta0)
             # superposition layer for this convention (event 0)
             tol = 1e-12 * max(1e-30, float(np.abs(full).max()))
             cases.append(("S_%s_%s_%s" % (tag, vname.replace("+", "_"), frame),
@@ -172,6 +255,8 @@ def known_reproducers(ctx):
 def search(ctx, fails):
     for f in fails:
         m = f.get("input") or {}
+        if m.get("layer") == "alignment" and m["su2_mismatch"] > 1e-8:
+            return {k: m[k] for k in m if k != "layer"}
         if m.get("layer") == "convention_invariance" and abs(m["density"] - m["base_density"]) > 1e-8 * abs(m["base_density"]):
             return {"base_config": m["base_config"], "variant_config": m["config"], "variant": m["variant"], "frame": m["frame"], "params": m["params"],
                     "events": m["events"], "event": m["event"], "density_variant": m["density"], "density_base": m["base_density"]}
@@ -179,6 +264,8 @@ def search(ctx, fails):
 
 
 def run(ctx):
+    del ACASES[:]
+    ctx.extra_targets = ["Amp/CascadeTie.vo"]
     rnd = random.Random(ctx.seed * 1000003 + 2)
     ctx.rule = ("base configs: spin-1/2 weak decay (3/2, 3/2, 1 resonances), spin-1/2 -> vector + spin-1/2 + scalar, vector -> two declared-identical vectors + scalar (all pairings); variants: 3 chain orders x {base, align_ref=center_mass} + "
                 "{random_z, center_mass, only_left_angle, random_z+align_ref} ; each in the parent rest frame and with a moving parent; distinct = (config, variant, frame, event)")
@@ -192,6 +279,8 @@ def run(ctx):
     for c in cases[:: max(1, len(cases) // 4)]:
         ctx.sample({"case": c[0], "goal": c[1][:300], "layer": c[3].get("layer")}, cap=10)
     res_ = common.coq_cases(ctx, "c02", HEADER, [c[:3] for c in cases], per_file=10, case_timeout=60)
+    res_.update(common.coq_cases(ctx, "c02a", AHEADER, [c[:3] for c in ACASES], per_file=2, case_timeout=120))
+    cases = cases + ACASES
     for cid, stmt, tac, meta in cases:
         if res_[cid] != "OK":
             ctx.fail(meta["layer"], cid, "layer %s does not check (%s)" % (meta["layer"], res_[cid]), inp=meta,
